@@ -210,7 +210,19 @@ def _route_problems(P, routes, S):
     return out
 
 
+def _malformed(P, S):
+    """Reset boards whose target lies outside the grid (known RandomWalkGenerator defect, reported once under C10:
+    the wrapped target code may even overwrite a head) are not judged again by the state monitors."""
+    G = S["grid"].shape[0]
+    if any(not _inside(G, *t) for t in _tgt(S)):
+        P.hit("malformed_instance_not_judged")
+        return True
+    return False
+
+
 def hard_constraints(P, trace):
+    if _malformed(P, trace[0].S):
+        return []
     routes, out = _routes(trace)
     P.shadow["routes"] = routes
     P.hit("routes_checked")
@@ -221,7 +233,7 @@ def hard_constraints(P, trace):
 
 def complete(P, trace):
     S = trace[-1].S
-    if not _connected(S).all():
+    if not _connected(S).all() or _malformed(P, trace[0].S):
         return None
     P.hit("completed_all_connected")
     routes, out = _routes(trace)
@@ -240,9 +252,11 @@ def physical(P, S_prev, a, S):
     out = []
     G, n = P.params["grid_size"], P.params["agents"]
     grid = S["grid"]
-    P.hit("occupancy")
     if grid.shape != (G, G):
         return [f"grid_shape: grid shape {grid.shape} != {(G, G)}"]
+    if _malformed(P, S):
+        return []
+    P.hit("occupancy")
     pos, tg = _pos(S), _tgt(S)
     if len(pos) != n:
         return [f"agent_count: {len(pos)} agents != {n}"]
@@ -265,9 +279,6 @@ def physical(P, S_prev, a, S):
         if len(tcells) > 1:
             out.append(f"at_most_one_target: {len(tcells)} cells carry the target code of agent {i}")
         tr, tc = int(tg[i][0]), int(tg[i][1])
-        if not _inside(G, tr, tc):
-            P.hit("target_outside_grid_not_judged")  # generator defect, reported once under C10
-            continue
         if con[i]:
             if len(tcells) != 0:
                 out.append(f"target_consumed_when_connected: agent {i} is connected but its target code is still on the grid")
